@@ -223,6 +223,7 @@ class State:
         self.panic_info = None
         self.calls = []           # (caller, callee path, span) resolved call sites met
         self.fresh = 0
+        self.tags = {}            # rule-owned annotations (copied on fork), e.g. the loop head a back edge returned to
 
     def fork(self):
         s = State.__new__(State)
@@ -250,6 +251,7 @@ class State:
         s.panic_info = None
         s.calls = list(self.calls)
         s.fresh = self.fresh
+        s.tags = dict(getattr(self, 'tags', {}))
         s.probe = getattr(self, 'probe', None)
         s.last_iter_elem = getattr(self, 'last_iter_elem', None)
         return s
@@ -290,6 +292,7 @@ class Interp:
         self.stubs = {}             # callee path -> python function(interp, state, frame, term, args) -> list of (state) or None
         self.stats = {'states': 0, 'blocks': 0, 'inlined': 0, 'modelled': 0, 'unmodelled': 0}
         self.unmodelled = set()
+        self.int_float_casts = []   # (function, target type, term, lo, hi) of every int -> float conversion evaluated
         self.models_used = set()
         self.fns_analysed = set()
         self.fixpoint_depth = 0
@@ -941,6 +944,9 @@ class Interp:
         if kind == 'IntToFloat':
             if not isinstance(v, Num):
                 return self.opaque_result(st, tty, 'cast')
+            # recorded for the exactness rule: an integer outside [-2^24, 2^24] (f32) is rounded by this conversion
+            lo, hi = ctx.rng(v.term)
+            self.int_float_casts.append((frame.fn['path'], tty['n'], v.term, lo, hi))
             return Num(v.term, tty['n'])
         if kind == 'FloatToInt':
             if not isinstance(v, Num):
@@ -1180,6 +1186,7 @@ class Interp:
                         fr.bb = target
                         return None
                     st.status = 'loopback'
+                    st.tags['loopback_target'] = target
                     return 'stop'
                 fr.entered_loops.add(target)
                 if self.loop_hook is None and self.short_concrete_loop(st, fr, cfg, target):
